@@ -1445,6 +1445,9 @@ fn preprocess_initial_file(
             Err(_) => return Err(PreprocessError::InvalidDefine(SourceLocation::UNKNOWN)),
         };
 
+        // A name that is given twice behaves like two #define lines - the later value replaces the earlier
+        macros.retain(|m: &Macro| m.name != *name);
+
         macros.push(Macro {
             name: name.to_string(),
             is_function: false,
